@@ -54,8 +54,10 @@ class Worker:
         except OSError:
             return ""
 
-    def ask(self, cmd):
-        """Send one command; return the reply. Raises Crash when the worker dies or hangs on it."""
+    def ask(self, cmd, during=None):
+        """Send one command; return the reply. Raises Crash when the worker dies or hangs on it.
+        `during(pid)` runs in THIS process after the command was sent and before the reply is awaited (scripted feeding of
+        the pipes the worker's threads read from)."""
         import select
         if self.proc is None or self.proc.poll() is not None:
             self.start()
@@ -65,6 +67,8 @@ class Worker:
             self.proc.stdin.flush()
         except (BrokenPipeError, OSError):
             return self._died("broken pipe")
+        if during is not None:
+            during(self.proc.pid)
         r, _, _ = select.select([self.proc.stdout], [], [], self.timeout)
         if not r:
             self.proc.kill()
